@@ -44,6 +44,8 @@ package api
 //@   local h *api.Nodes#1
 //@   local res http.ResponseWriter#1
 //@   local req *http.Request#1
+//@   local id string#1
+//@   local d []byte#2
 //@   requires h != nil && req != nil && req.URL != nil && busAcyclic(h.nc)
 //@   modifies req.URL, state(h.nc), res
 //@   ensures [C09] unauthorised-gets-401-and-no-bus-access: !old(authorised(h, req)) ==> busOps(h.nc) == old(busOps(h.nc)) && respN(res) == old(respN(res)) + 1 && respStatus(res) == 401
